@@ -117,7 +117,7 @@ pub fn real_diff(n: u64, seed: u64, real_bin: &Path) -> i32 {
     let _ = std::fs::remove_dir_all(base);
     for i in 0..n {
         let mut rng = Rng::derive(seed, "real-diff", i);
-        let mut sc = gen_history(&mut rng, &HistOpts { io: gen::IoOpts::default(), max_invocations: 4, edit_pct: 80, touch_only: false, vary_entry: true, clean_pct: 10, fail_pct: 0, corrupt_pct: 0, io_fault_pct: 0, sys_fault: (0, false) });
+        let mut sc = gen_history(&mut rng, &HistOpts { io: gen::IoOpts::default(), max_invocations: 4, edit_pct: 80, touch_only: false, vary_entry: true, clean_pct: 10, fail_pct: 0, corrupt_pct: 0, io_fault_pct: 0, sys_fault: (0, false), ancient_every: 0 });
         // services would keep the real binary alive: only histories whose requests stay clear of them
         let has_service = sc.steps.iter().any(|s| match s {
             Step::Invoke(inv) => {
